@@ -27,6 +27,12 @@ FIXED = [
   "contains_v3_3_term only knew null: blocks whose only 3.3 feature was an array, a map, a nested null or .get() were declared version 3 with a version 0 signature and accepted under any declared version"),
  ("C14", "fix: printed Datalog escapes quotes", "C14/string/*",
   "strings and map-key strings were printed without escaping: a value such as a\"), admin(\"b printed as two predicates; backslashes and newlines printed as text the parser refuses or reads differently (also C20: parameter values made of Datalog syntax)"),
+ ("C09", "fix: block accessors return an error for an index past", "C09/panic/biscuit-auth/src/token/mod.rs:562, unverified.rs:270",
+  "print_block_source(block_count()) and block_version(block_count()) indexed out of bounds (off-by-one in block(index)) on Biscuit and UnverifiedBiscuit"),
+ ("C09", "fix: Authorizer::from_snapshot refuses generated facts with unknown symbols", "C09/panic/biscuit-auth/src/token/authorizer.rs:696",
+  "a snapshot whose generated facts refer to unknown symbols restored fine and then panicked (unwrap of UnknownSymbol) in dump() / dump_code()"),
+ ("C09", "fix: displaying a builder expression never panics", "C09/panic/biscuit-auth/src/token/builder/expression.rs:90, term.rs:222",
+  "Display of a builder Expression unwrapped the printer (None for malformed op sequences reachable from signed blocks / snapshots via dump_code) and panicked with 'Remaining parameter' on expressions with unbound parameters such as `check if {a}`"),
  ("C20", "fix: parameters nested in collections are substituted", "C20/panic/biscuit-auth/src/token/builder/term.rs:222|230",
   "Rule / Op apply_parameters did not recurse into sets, arrays and maps: a bound parameter nested in a rule head, body or expression literal survived to convert() -> panic 'Remaining parameter'; nested parameters were not collected either, so unbound ones were accepted on add; a map-key parameter bound to a non-key value panicked the same way"),
  ("C14", "fix: an empty map parses as a fact", "C14/term/map-empty, map-*-key-map-empty, array-of-one-map-empty",
